@@ -388,6 +388,45 @@ func runC14(c *Ctx) {
 			"setAcceptedResources can return without assigning AcceptedResource to an active task ("+pathStr(path)+"): the value computed for an earlier, rolled-back placement on another node is charged to this node and its queues and is written into the BindRequest")
 	}
 
+	// O10: a whole GPU moves between Idle / Releasing and "shared" only at a group boundary. In the per-group
+	// functions every ±1 GPU on NodeInfo.Idle / Releasing is decided by the state of THAT group (its memory counters
+	// or its releasing mark): the first sharer takes the device out of Idle, the last one hands it back. A ±1 that
+	// depends on node-level state only is applied once per sharer and drifts away from the recomputation.
+	for _, name := range []string{"addSharedTaskResourcesPerPodGroup", "removeSharedTaskResourcesPerPodGroup"} {
+		fn := p.Func(pkgNodeInfo, "NodeInfo", name)
+		if fn == nil {
+			c.Undec("O10", "ANCHOR", name, 0, "not found")
+			continue
+		}
+		n := 0
+		for _, h := range p.deepFind(fn, func(in ssa.Instruction) bool {
+			cc, ok := in.(ssa.CallInstruction)
+			if !ok || calleeOf(cc) == nil || (calleeOf(cc).Name() != "SubGPUs" && calleeOf(cc).Name() != "AddGPUs") {
+				return false
+			}
+			lf := termOf(cc.Common().Args[0]).lastField()
+			return lf == "Idle" || lf == "Releasing"
+		}, 1) {
+			n++
+			fs := c.Fx.factsAtDeep(h)
+			d, ok := hasFact(fs, func(f Fact) bool {
+				return f.T.contains(func(x *Term) bool {
+					if x.Op == "lookup" && strings.HasSuffix(x.Args[0].lastField(), "SharedGPUsMemory") {
+						return true
+					}
+					if x.Op == "lookup" && strings.Contains(x.Args[0].lastField(), "SharedGPU") {
+						return true
+					}
+					return x.Op == "call" && x.Fn != nil && (strings.Contains(x.Fn.Name(), "SharedGpuMarkedAsReleasing") || strings.Contains(x.Fn.Name(), "isPipelinedToReleasingGpu"))
+				})
+			})
+			cc := h.In.(ssa.CallInstruction)
+			c.Check(ok, "O10", "DOM", fmt.Sprintf("%s: %s.%s(1) is decided by the state of the GPU group", funcKey(fn), termOf(cc.Common().Args[0]).lastField(), calleeOf(cc).Name()), instrPos(h.In), trunc(d, 140),
+				"a whole GPU is moved in or out of the node's Idle/Releasing pool for a sharer without looking at its group (first / last sharer, releasing mark): it is applied once per sharer instead of once per device and is not undone by the removal")
+		}
+		c.Floor("O10", "DOM whole-GPU effects in "+name, n, 2)
+	}
+
 	// O6: status lattice
 	runStatusConsts(c, "O6")
 	_ = types.Typ
